@@ -280,7 +280,7 @@ func (in *Interp) pkgInit(path string) bool {
 
 // stdInit: standard-library packages whose (cheap, pure) package initialisers
 // run for real so that their small lookup tables have their values.
-var stdInit = map[string]bool{"strings": true, "bytes": true, "strconv": true, "path": true, "sort": true}
+var stdInit = map[string]bool{"unicode/utf8": true, "strings": true, "bytes": true, "strconv": true, "path": true, "sort": true}
 
 // poison marks an unmodelled foreign global; any use is inconclusive.
 type poison struct{ name string }
